@@ -1,6 +1,7 @@
 import St4sd.Model.Validate
 import St4sd.Lemmas.C11Expand
 import St4sd.Lemmas.C11Vars
+import St4sd.Lemmas.C11Loop
 import St4sd.Gen.C11
 /-!
 # C11 — A workflow that loads is structurally executable; a broken one is rejected
@@ -575,6 +576,99 @@ theorem wrongType_rejected (tbl sch) (d : Doc) (hf : wrongType tbl sch d) : vali
   obtain ⟨e, he, hh⟩ := wrongType_hard (hu o ho)
   rw [hall e he] at hh; cases hh
 
+/-! ## Packages with DoWhile documents (`Model/ValidateLoop.lean`) -/
+
+/-- the fault classes of the property text inside a DoWhile document -/
+def danglingLoopBinding (p : Package) : Prop :=
+  ∃ l ∈ p.loops, ∃ kv ∈ l.loopBindings, offset l kv.2 ∉ tmplIds l
+def danglingCondition (p : Package) : Prop := ∃ l ∈ p.loops, offset l l.cond ∉ tmplIds l
+/-- a binding value that is no component of the main document, no importing component and no looped component
+of any document -/
+def danglingBinding (p : Package) : Prop :=
+  ∃ l ∈ p.loops, ∃ kv ∈ l.bindings, kv.2 ∉ ids p.main ++ stubIds p ∧ ∀ l' ∈ p.loops, kv.2 ∉ tmplIds l'
+def unboundInput (p : Package) : Prop := ∃ l ∈ p.loops, ∃ k ∈ l.inputs, lookup k l.bindings = none
+def duplicateLooped (p : Package) : Prop := ∃ l ∈ p.loops, ¬ (tmplIds l).Nodup
+/-- a reference of a looped component, as rewritten for iteration 0, is neither a component of the loaded
+document nor a placeholder -/
+def danglingLoopReference (p : Package) : Prop :=
+  ∃ l ∈ p.loops, ∃ t ∈ l.comps, ∃ r ∈ t.refs, refResolves (flatten p) (rewriteRef l 0 r) = false
+
+private theorem loopOk_of {tbl sch} {p : Package} (h : validateP tbl sch p = []) {l : Loop} (hl : l ∈ p.loops) :
+    ∃ foreign, LoopOk foreign l ∧ ∀ i ∈ foreign, i ∈ ids p.main ++ stubIds p ∨ ∃ l' ∈ p.loops, i ∈ tmplIds l' :=
+  loopErrorsFrom_nil (validateP_nil h).1 l hl
+
+/-- **acceptedP_is_usable** (full): if a package with DoWhile documents loads then the document made of the main
+components and iteration 0 of every loop is usable in the sense of `accepted_is_usable` (unique identifiers,
+every reference a component or a loop placeholder, acyclic, variables resolve — the looped components in the
+scope of their absolute stage —, options valid), and for every loop: the looped components have pairwise
+different identifiers, every input binding has a value, every binding value is a component known outside the
+loop or a looped component, every LOOP binding and the condition point to looped components of the same
+document. -/
+theorem acceptedP_is_usable (tbl : List (S × Conv)) (sch : Schema) (p : Package) (h : validateP tbl sch p = []) :
+    validate tbl sch (flatten p) = [] ∧
+    ∀ l ∈ p.loops,
+      (tmplIds l).Nodup ∧
+      (∀ k ∈ l.inputs, ∃ i, lookup k l.bindings = some i) ∧
+      (∀ kv ∈ l.bindings, kv.2 ∈ ids p.main ++ stubIds p ∨ ∃ l' ∈ p.loops, kv.2 ∈ tmplIds l') ∧
+      (∀ kv ∈ l.loopBindings, offset l kv.2 ∈ tmplIds l) ∧
+      offset l l.cond ∈ tmplIds l := by
+  refine ⟨(validateP_nil h).2, fun l hl => ?_⟩
+  obtain ⟨foreign, hok, hsub⟩ := loopOk_of h hl
+  exact ⟨hok.nodup, hok.bound, fun kv hkv => hsub _ (hok.bindings kv hkv), hok.loopBindings, hok.cond⟩
+
+/-- **next_iteration_resolves** (full): an accepted package is structurally executable beyond iteration 0: for
+every loop and every `k`, each reference of each component that iteration `k+1` adds (input bindings with a loop
+binding now point to iteration `k`) is a component of the document with the iterations `1 … k+1` of that loop
+added, or a placeholder of the loaded document; and the components of one iteration have pairwise different
+identifiers.  Nothing is left to fail when the next iteration is instantiated at run time. -/
+theorem next_iteration_resolves (tbl : List (S × Conv)) (sch : Schema) (p : Package)
+    (h : validateP tbl sch p = []) (l : Loop) (hl : l ∈ p.loops) (k : Nat) :
+    (∀ c' ∈ inst l (k + 1), ∀ r ∈ c'.refs,
+      r ∈ ids (unrolled p l (k + 1)) ∨ r ∈ placeholders (flatten p)) ∧
+    ((inst l (k + 1)).map Comp.id).Nodup := by
+  obtain ⟨foreign, hok, _⟩ := loopOk_of h hl
+  refine ⟨next_refs_resolve hl (fun c hc r hr => ?_) hok.loopBindings k, nodup_ids_inst hok.nodup _⟩
+  exact (accepted_is_usable tbl sch (flatten p) (validateP_nil h).2).2.1 c hc r hr
+
+theorem danglingLoopBinding_rejected (tbl sch) (p : Package) (hf : danglingLoopBinding p) :
+    validateP tbl sch p ≠ [] := by
+  intro h
+  obtain ⟨l, hl, kv, hkv, hn⟩ := hf
+  exact hn (((acceptedP_is_usable tbl sch p h).2 l hl).2.2.2.1 kv hkv)
+
+theorem danglingCondition_rejected (tbl sch) (p : Package) (hf : danglingCondition p) :
+    validateP tbl sch p ≠ [] := by
+  intro h
+  obtain ⟨l, hl, hn⟩ := hf
+  exact hn ((acceptedP_is_usable tbl sch p h).2 l hl).2.2.2.2
+
+theorem danglingBinding_rejected (tbl sch) (p : Package) (hf : danglingBinding p) :
+    validateP tbl sch p ≠ [] := by
+  intro h
+  obtain ⟨l, hl, kv, hkv, hn1, hn2⟩ := hf
+  rcases ((acceptedP_is_usable tbl sch p h).2 l hl).2.2.1 kv hkv with h1 | ⟨l', hl', h1⟩
+  · exact hn1 h1
+  · exact hn2 l' hl' h1
+
+theorem unboundInput_rejected (tbl sch) (p : Package) (hf : unboundInput p) : validateP tbl sch p ≠ [] := by
+  intro h
+  obtain ⟨l, hl, k, hk, hn⟩ := hf
+  obtain ⟨i, hi⟩ := ((acceptedP_is_usable tbl sch p h).2 l hl).2.1 k hk
+  rw [hn] at hi; cases hi
+
+theorem duplicateLooped_rejected (tbl sch) (p : Package) (hf : duplicateLooped p) : validateP tbl sch p ≠ [] := by
+  intro h
+  obtain ⟨l, hl, hn⟩ := hf
+  exact hn ((acceptedP_is_usable tbl sch p h).2 l hl).1
+
+theorem danglingLoopReference_rejected (tbl sch) (p : Package) (hf : danglingLoopReference p) :
+    validateP tbl sch p ≠ [] := by
+  intro h
+  obtain ⟨l, hl, t, ht, r, hr, hn⟩ := hf
+  refine dangling_rejected tbl sch (flatten p) ⟨_, inst0_sub_flatten hl (List.mem_map.mpr ⟨t, ht, rfl⟩),
+    rewriteRef l 0 r, ?_, hn⟩ (validateP_nil h).2
+  exact List.mem_map.mpr ⟨r, hr, rfl⟩
+
 /-! ## Pin theorems on the constants regenerated from the source (`Gen/C11.lean`) -/
 
 /-- Every option key of the schema in the source, misspelled (one letter appended) in an otherwise empty
@@ -755,5 +849,54 @@ example : (validate Gen.C11.convTable Gen.C11.componentSchema
     (withOpts (.dict [("resourceRequest".toList, .dict [("numberThreads".toList, .list [.str "zzz".toList])])]))).isEmpty
     = false := by
   decide +kernel
+
+/-! ### a package with a DoWhile document -/
+
+private def tc (stage : Nat) (name : String) (refs : List Id) (uses : List S) : TComp :=
+  { stage := stage, name := name.toList, refs := refs, opts := .dict [], vars := [], uses := uses }
+
+/-- `dummy` (stage 0) feeds the loop imported at stage 1: `add` reads the input binding `number` (bound to `dummy`,
+loop-bound to `fake`), `fake` reads `add`, `stop` (document stage 1) reads `fake` and produces the condition;
+`report` (stage 3) consumes `add` and `stop` through their placeholders -/
+private def loopPkg (loopBinding : Id) : Package :=
+  { main := { comps := [c 0 "dummy" [] [] [], c 3 "report" [(1, "add".toList), (2, "stop".toList)] [] []],
+              globals := [("g".toList, [])] },
+    loops := [{ stage := 1, name := "looper".toList, inputs := ["number".toList],
+                bindings := [("number".toList, (0, "dummy".toList))],
+                loopBindings := [("number".toList, loopBinding)], cond := (1, "stop".toList),
+                comps := [tc 0 "add" [(0, "number".toList)] ["loopIteration".toList],
+                          tc 0 "fake" [(0, "add".toList)] ["g".toList],
+                          tc 1 "stop" [(0, "fake".toList)] []] }] }
+
+private def goodLoop : Package := loopPkg (0, "fake".toList)
+
+example : validateP Gen.C11.convTable Gen.C11.componentSchema goodLoop = [] := by decide +kernel
+example : ids (flatten goodLoop) =
+    [(0, "dummy".toList), (3, "report".toList), (1, "0#add".toList), (1, "0#fake".toList), (2, "0#stop".toList)] := by
+  decide +kernel
+/-- iteration 1: `1#add` reads `0#fake` (the loop binding), `1#fake` reads `1#add` -/
+example : (inst (goodLoop.loops.head!) 1).map (fun c => (c.id, c.refs)) =
+    [((1, "1#add".toList), [(1, "0#fake".toList)]), ((1, "1#fake".toList), [(1, "1#add".toList)]),
+     ((2, "1#stop".toList), [(1, "1#fake".toList)])] := by decide +kernel
+/-- the single faults "the loop binding names a component that does not exist / of a stage the loop does not
+have / outside the loop" are rejected when the package is loaded -/
+example : danglingLoopBinding (loopPkg (0, "fak".toList)) :=
+  ⟨_, .head _, _, .head _, by decide +kernel⟩
+example : validateP Gen.C11.convTable Gen.C11.componentSchema (loopPkg (0, "fak".toList))
+    = [.loop (1, "looper".toList) (.loopBindingUnknown "number".toList (0, "fak".toList))] := by decide +kernel
+example : (validateP Gen.C11.convTable Gen.C11.componentSchema (loopPkg (2, "fake".toList))).isEmpty = false := by
+  decide +kernel
+example : (validateP Gen.C11.convTable Gen.C11.componentSchema (loopPkg (2, "report".toList))).isEmpty = false := by
+  decide +kernel
+/-- … while the references of iteration 1 of such a package would dangle: `1#add` would read `0#fak` -/
+example : (inst ((loopPkg (0, "fak".toList)).loops.head!) 1).all
+    (fun c => c.refs.all (refResolves (unrolled (loopPkg (0, "fak".toList)) (loopPkg (0, "fak".toList)).loops.head! 1)))
+    = false := by decide +kernel
+/-- a dangling condition, a dangling reference of a looped component -/
+example : danglingCondition { goodLoop with loops := goodLoop.loops.map (fun l => { l with cond := (0, "stop".toList) }) } :=
+  ⟨_, .head _, by decide +kernel⟩
+example : (validateP Gen.C11.convTable Gen.C11.componentSchema
+    { goodLoop with loops := goodLoop.loops.map (fun l =>
+        { l with comps := l.comps ++ [tc 1 "extra" [(0, "ghost".toList)] []] }) }).isEmpty = false := by decide +kernel
 
 end St4sd.C11
